@@ -1,4 +1,4 @@
 SPECIFICATION Spec
 CONSTANT Tier = "thorough"
-INVARIANTS H1 H2 H3 FirstSeen
+INVARIANTS H1 H2 H3 H4 FirstSeen
 CHECK_DEADLOCK FALSE
